@@ -60,6 +60,26 @@ def judge(line, level, width, indentation, result, marker):
     return None
 
 
+def judge_emitted_pieces(text, pieces, marker, width=80):
+    """For generators that do not pass every line through the wrapper (the Python one): the physical lines that DID
+    come out of the wrapper, found again in the emitted text with the indentation the generator gave them, must
+    fit the width if they hold more than one token."""
+    out = []
+    for no, ln in enumerate(text.split("\n"), 1):
+        st = ln.strip()
+        if len(ln) <= width or st not in pieces:
+            continue
+        body = st[:-1] if st.endswith(marker) else st
+        try:
+            ntok = len(lex(body))
+        except ValueError:
+            ntok = 2
+        if ntok > 1:
+            out.append(("emitted-wrapped-line-too-wide",
+                        f"emitted line {no} came out of the wrapper, is {len(ln)} wide and holds {ntok} tokens: {ln!r}"))
+    return out
+
+
 def judge_emitted_text(text, marker, comment, width=80):
     """Whole-module view (what the generator finally emits, after it has put the indentation back): no physical
     line that holds more than one token is wider than the width.  Returns a list of (mech, text)."""
@@ -90,6 +110,7 @@ class WrapMonitor:
     def __init__(self, rec):
         self.rec = rec
         self.failures = []
+        self.pieces = {"python": set(), "fortran": set()}     # every physical line the wrapper handed back
 
     def attach(self):
         import icontract
@@ -110,6 +131,8 @@ class WrapMonitor:
                 mon.rec.count(f"wrap_contract_evaluations_{name}")
                 if len(result) > 1:
                     mon.rec.count(f"wrapped_lines_judged_{name}")
+                if isinstance(result, list):
+                    mon.pieces[name].update(r.strip() for r in result if isinstance(r, str))
                 why = judge(line, level, width, indentation, result, marker)
                 if why:
                     mon.failures.append((name, why, {"line": line, "level": level, "width": width,
